@@ -3,6 +3,7 @@
 import json, sys
 pid, wt = sys.argv[1], sys.argv[2]
 n = sys.argv[3] if len(sys.argv) > 3 else '2'
+focus = sys.argv[4] if len(sys.argv) > 4 else ''   # optional: mechanisms (from the property's own anchor list) the mutants should involve
 p = next(json.loads(l) for l in open('/verif/properties.jsonl') if json.loads(l)['id'] == pid)
 print(f"""You are testing how good a verification harness is by writing realistic regressions for it to catch. You work ONLY inside the git worktree {wt} (a checkout of the Go library github.com/aptpod/iscp-go, a client for the iSCP v2 telemetry streaming protocol). Do not read or write anything under /verif or /repo. No network: run Go with `export GOFLAGS=-mod=mod GOPROXY=off` in every shell call (do NOT set GOTOOLCHAIN or GOSUMDB). The full test suite is `cd {wt} && go test -vet=off -count=1 ./...` (about 15-60 s).
 
@@ -19,4 +20,4 @@ For each mutant i (1..{n}) deliver, in the directory {wt}/_mut/m<i>/ :
   - note.txt : which part of the property it breaks, what it needs in order to manifest, and why the existing tests do not notice.
 Procedure you must follow for every mutant: apply the change; run the full test suite and confirm it passes (if a test fails, discard or adjust the mutant); run the demo and confirm it fails; revert the change (`git checkout -- .` for tracked files) and confirm the demo passes; keep only mutants for which all of this holds. Leave the worktree's tracked files unmodified at the end (everything you deliver lives under _mut/). Some existing tests are timing-sensitive and occasionally flaky on their own; re-run once before concluding that your change broke a test.
 
-Final answer: for each mutant, one paragraph: file/function changed, what breaks, how it manifests, and the commands you ran with their outcomes.""")
+""" + (f"FOCUS: spread the mutants over different mechanisms; at least one mutant each must involve: {focus} (these are mechanisms named in the property's anchor list; the anchors of the property are: " + '; '.join(m['name'] + ' @ ' + m['where'] for m in p['anchors'].get('mechanism', [])) + ").\n\n" if focus else '') + f"""Final answer: for each mutant, one paragraph: file/function changed, what breaks, how it manifests, and the commands you ran with their outcomes.""")
